@@ -37,8 +37,19 @@ Definition own_case_ok (i : binput) : bool :=
               end
   end.
 
-Lemma own_ok_upto3 : forall_inputs 1 own_case_ok && forall_inputs 2 own_case_ok && forall_inputs 3 own_case_ok = true.
+Lemma own_ok_1 : forall_inputs 1 own_case_ok = true.
 Proof. vm_cast_no_check (@eq_refl bool true). Qed.
+Lemma own_ok_2 : forall_inputs 2 own_case_ok = true.
+Proof. vm_cast_no_check (@eq_refl bool true). Qed.
+Lemma own_ok_3 : forall_inputs 3 own_case_ok = true.
+Proof. vm_cast_no_check (@eq_refl bool true). Qed.
+
+Lemma own_case_ok_elim i b ss kl kr :
+  own_case_ok i = true -> prepared i = Some b -> build i = Built ss kl kr -> excluded b = false -> readded_same_id ss = false ->
+  plan_runs_ok (i_region i) ss = true.
+Proof.
+  unfold own_case_ok. intros H Hp Hb He Hr. rewrite Hp, Hb, He, Hr in H. cbn [orb] in H. exact H.
+Qed.
 
 Lemma own_steps_never_stale_bounded_pf :
   forall n, (1 <= n <= 3)%nat ->
@@ -47,19 +58,16 @@ Lemma own_steps_never_stale_bounded_pf :
     In tv (vectors role_opts n) -> In tl (0 :: voters_of (target_of tv)) ->
     In lok (vectors [true; false] n) -> In m modes ->
   forall b ss kl kr,
-    let i := mk_input n ov ol tv tl lok m force in
-    prepared i = Some b -> build i = Built ss kl kr -> excluded b = false -> readded_same_id ss = false ->
-    plan_runs_ok (i_region i) ss = true.
+    prepared (mk_input n ov ol tv tl lok m force) = Some b ->
+    build (mk_input n ov ol tv tl lok m force) = Built ss kl kr -> excluded b = false -> readded_same_id ss = false ->
+    plan_runs_ok (i_region (mk_input n ov ol tv tl lok m force)) ss = true.
 Proof.
-  intros n Hn ov ol tv tl lok m force Hov Hol Htv Htl Hlok Hm b ss kl kr i Hp Hb He Hr.
-  pose proof own_ok_upto3 as H.
-  apply andb_true_iff in H as [H H3]. apply andb_true_iff in H as [H1 H2].
-  assert (Hc : own_case_ok i = true).
-  { unfold i. destruct n as [|[|[|[|n]]]]; try lia.
-    - exact (forall_inputs_spec 1 own_case_ok H1 ov ol tv tl lok m force Hov Hol Htv Htl Hlok Hm).
-    - exact (forall_inputs_spec 2 own_case_ok H2 ov ol tv tl lok m force Hov Hol Htv Htl Hlok Hm).
-    - exact (forall_inputs_spec 3 own_case_ok H3 ov ol tv tl lok m force Hov Hol Htv Htl Hlok Hm). }
-  clear H1 H2 H3. unfold own_case_ok in Hc. rewrite Hp, Hb, He, Hr in Hc. exact Hc.
+  intros n Hn ov ol tv tl lok m force Hov Hol Htv Htl Hlok Hm b ss kl kr Hp Hb He Hr.
+  eapply own_case_ok_elim; eauto.
+  destruct n as [|[|[|[|n]]]]; try lia.
+  - exact (forall_inputs_spec 1 own_case_ok own_ok_1 ov ol tv tl lok m force Hov Hol Htv Htl Hlok Hm).
+  - exact (forall_inputs_spec 2 own_case_ok own_ok_2 ov ol tv tl lok m force Hov Hol Htv Htl Hlok Hm).
+  - exact (forall_inputs_spec 3 own_case_ok own_ok_3 ov ol tv tl lok m force Hov Hol Htv Htl Hlok Hm).
 Qed.
 
 (* ---------- refutation: judged stale on its own steps ---------- *)
